@@ -157,6 +157,8 @@ theorem enumStmtStep_ok (range : Int × Int) (acc acc' : EnumAcc) (st : G.EnumSt
   unfold enumStmtStep at h
   have tail : ∀ value, (if (decide (value < range.1) || decide (value > range.2)) = true then
         Res.err "value does not fit in the enum's base type"
+      else if (acc.fields.any fun nv => nv.1 == st.name || nv.2 == value) = true then
+        Res.err "case has the same name or value as an earlier case"
       else
         match Res.foldlM (fun (di : Option Nat) (a : G.Attr) =>
             match a with
@@ -178,13 +180,15 @@ theorem enumStmtStep_ok (range : Int × Int) (acc acc' : EnumAcc) (st : G.EnumSt
     · cases h
     · rename_i hr
       split at h
-      · rename_i di hdi
-        cases h
-        have hd := defaultLoop _ _ _ _ hdi
-        simp only [Bool.or_eq_true, decide_eq_true_eq, not_or, Int.not_lt] at hr
-        refine ⟨hr.1, by omega, rfl, rfl, ?_⟩
-        simpa [hasMarker] using hd
-      · exact absurd h (cast_ne_ok _ _)
+      · cases h
+      · split at h
+        · rename_i di hdi
+          cases h
+          have hd := defaultLoop _ _ _ _ hdi
+          simp only [Bool.or_eq_true, decide_eq_true_eq, not_or, Int.not_lt] at hr
+          refine ⟨hr.1, by omega, rfl, rfl, ?_⟩
+          simpa [hasMarker] using hd
+        · exact absurd h (cast_ne_ok _ _)
   cases he : st.expr with
   | none =>
     cases hl : acc.last with
@@ -328,26 +332,28 @@ theorem buildEnum_ok (s : State) (p : Path) (d : G.EnumDef) (r : Resolved) (h : 
         · cases h
         · rename_i range hrange
           split at h
-          · rename_i acc hacc
-            split at h
-            · cases h
-            · rename_i doc hdoc
+          · cases h
+          · split at h
+            · rename_i acc hacc
               split at h
-              · rename_i ea hea
+              · cases h
+              · rename_i doc hdoc
                 split at h
-                · cases h
-                · rename_i hc1
+                · rename_i ea hea
                   split at h
                   · cases h
-                  · rename_i hc2
+                  · rename_i hc1
                     split at h
                     · cases h
-                    · rename_i al hal
-                      cases h
-                      exact ⟨ty, range, acc, ea, doc, hrange, hsize, hal, hacc, hea,
-                        Bool.eq_false_iff.mpr hc1, Bool.eq_false_iff.mpr hc2, rfl⟩
-              · exact absurd h (cast_ne_ok _ _)
-          · exact absurd h (cast_ne_ok _ _)
+                    · rename_i hc2
+                      split at h
+                      · cases h
+                      · rename_i al hal
+                        cases h
+                        exact ⟨ty, range, acc, ea, doc, hrange, hsize, hal, hacc, hea,
+                          Bool.eq_false_iff.mpr hc1, Bool.eq_false_iff.mpr hc2, rfl⟩
+                · exact absurd h (cast_ne_ok _ _)
+            · exact absurd h (cast_ne_ok _ _)
       · exact absurd h (cast_ne_ok _ _)
     · exact absurd h (cast_ne_ok _ _)
 
